@@ -84,3 +84,32 @@ func init() {
 		}
 	}
 }
+
+func init() {
+	for _, a := range os.Args {
+		if a == "-divs" {
+			w, err := loadWorld("/repo", nil)
+			if err != nil {
+				fmt.Println(err)
+				os.Exit(2)
+			}
+			divSurvey(w)
+			os.Exit(0)
+		}
+		if a == "-globals" {
+			root := "/repo"
+			for j, b := range os.Args {
+				if b == "-repo" && j+1 < len(os.Args) {
+					root = os.Args[j+1]
+				}
+			}
+			w, err := loadWorld(root, nil)
+			if err != nil {
+				fmt.Println(err)
+				os.Exit(2)
+			}
+			globalSurvey(w)
+			os.Exit(0)
+		}
+	}
+}
